@@ -15,7 +15,7 @@ from fractions import Fraction
 import numpy as np
 
 from common import F, Rng, close_all, digest, err_class, fl, pmat, pvec, rs
-from fpca_util import (trapz_weights, EigCapture, Fm, Fv, Smat, Svec, curves, dense, grid, quiet, raw_from_call, sel_to_model,
+from fpca_util import (trapz_weights, pow2, EigCapture, Fm, Fv, Smat, Svec, curves, dense, grid, quiet, raw_from_call, sel_to_model,
                        sel_to_py)
 
 PROP = "C02"
@@ -48,7 +48,7 @@ def _sels(rng, size):
 
 
 def gen_cases(rng: Rng, tier):
-    N = 1500 if tier == "thorough" else 110
+    N = 1500 if tier == "thorough" else 100
     big = tier == "thorough"
     for k in range(N):
         method = "cov" if k % 2 == 0 else "gram"
@@ -60,8 +60,23 @@ def gen_cases(rng: Rng, tier):
         else:
             kind = rng.choice(["smooth", "lowrank", "rough", "rough", "offset", "const" if k % 10 == 0 else "rough"])
         X, ck = curves(rng, n, t, kind)
+        sc = pow2(rng)  # data in small / large units: any scale
+        X = [[x * sc for x in r] for r in X]
         size = m if method == "cov" else n
-        yield dict(kind=method, t=Svec(t), X=Smat(X), sel=rng.choice(_sels(rng, size)), ck=ck)
+        case = dict(kind=method, t=Svec(t), X=Smat(X), sel=rng.choice(_sels(rng, size)), ck=ck, scale=rs(sc))
+        if k % 3 == 0:
+            # history: the same estimator is fitted again on other data (other size, other grid, other kind)
+            nB, mB = rng.randint(2, 9), rng.randint(3, 12)
+            tB = grid(rng, mB)
+            XB, _ = curves(rng, nB, tB, rng.choice(["rough", "lowrank", "smooth"]))
+            case["B"] = dict(t=Svec(tB), X=Smat(XB))
+        yield case
+    # Gram route with numbers of observations around typical block sizes (cheap: few grid points)
+    for n in ([16, 17, 31, 32, 33, 63, 64, 65, 96, 97] if big else [17, 32, 33, 64, 65]):
+        m = rng.choice([3, 4])
+        t = grid(rng, m)
+        X, ck = curves(rng, n, t, rng.choice(["rough", "smooth"]))
+        yield dict(kind="gram", t=Svec(t), X=Smat(X), sel=rng.choice([["all"], ["int", 2], ["int", m]]), ck=ck + "-blocksize", scale="1")
 
 
 def search_cases(rng, tier):
@@ -87,21 +102,16 @@ def witness_cases():
 # implementation side
 # --------------------------------------------------------------------------
 
-def run_impl(case):
-    from FDApy.preprocessing.dim_reduction.ufpca import UFPCA
-
-    t = Fv(case["t"])
-    X = np.array(fl(Fm(case["X"])))
+def _fit_stage(est, kind, t, X):
+    """Fit `est` on (t, X) under capture and read every observable of the property."""
     fd = dense([t], X)
-    method = "covariance" if case["kind"] == "cov" else "inner-product"
     out = {}
     with quiet(), EigCapture() as cap:
         try:
-            est = UFPCA(method=method, n_components=sel_to_py(case["sel"]), normalize=False)
             est.fit(fd)
         except Exception as e:  # noqa: BLE001
             return dict(error=err_class(e), msg=str(e)[:200])
-    size = len(t) if case["kind"] == "cov" else len(X)
+    size = len(t) if kind == "cov" else len(X)
     call = cap.last(size)
     if call is not None:
         out["raw_vals"], out["raw_vecs"] = raw_from_call(call)
@@ -111,13 +121,28 @@ def run_impl(case):
     out["phi"] = np.asarray(est.eigenfunctions.values, dtype=float).tolist()
     out["cov"] = np.asarray(est.covariance.values[0], dtype=float).tolist()
     out["noise"] = float(est._noise_variance)
-    if case["kind"] == "cov":
+    if kind == "cov":
         with quiet():
             out["data_cov"] = np.asarray(dense([t], X).covariance().values[0], dtype=float).tolist()
     else:
         out["V"] = np.asarray(est._eigenvectors, dtype=float).tolist()
         with quiet():
             out["gram0"] = np.asarray(dense([t], X).inner_product(noise_variance=0), dtype=float).tolist()
+    return out
+
+
+def run_impl(case):
+    from FDApy.preprocessing.dim_reduction.ufpca import UFPCA
+
+    method = "covariance" if case["kind"] == "cov" else "inner-product"
+    mk = lambda: UFPCA(method=method, n_components=sel_to_py(case["sel"]), normalize=False)  # noqa: E731
+    est = mk()
+    out = _fit_stage(est, case["kind"], Fv(case["t"]), np.array(fl(Fm(case["X"]))))
+    if "B" in case and "error" not in out:
+        tB, XB = Fv(case["B"]["t"]), np.array(fl(Fm(case["B"]["X"])))
+        out["B"] = _fit_stage(est, case["kind"], tB, XB)            # the SAME object, second fit
+        fresh = _fit_stage(mk(), case["kind"], tB, XB)
+        out["fresh"] = {k: fresh.get(k) for k in ("vals", "phi", "cov", "error")}
     return out
 
 
@@ -129,20 +154,34 @@ def _ratvec(v):
     return ",".join(rs(F(x)) for x in v) if len(v) else "-"
 
 
-def model_lines(case, impl):
-    if "__crash__" in impl or "raw_vals" not in impl:
-        return []
+def _stages(case, impl):
+    """(label, t, X, stage-impl) of the first fit and, for histories, of the refit of the same object."""
+    st = [("", case["t"], case["X"], impl)]
+    if "B" in case and isinstance(impl.get("B"), dict):
+        st.append(("refit: ", case["B"]["t"], case["B"]["X"], impl["B"]))
+    return st
+
+
+def _stage_line(case, t, X, st):
+    if "error" in st or "raw_vals" not in st:
+        return None
     J = ",".join
     M = lambda m: ";".join(",".join(r) for r in m)  # noqa: E731
-    cols = ";".join(_ratvec(c) for c in impl["raw_vecs"])
+    cols = ";".join(_ratvec(c) for c in st["raw_vecs"])
     sel = sel_to_model(case["sel"])
     if case["kind"] == "cov":
-        return [f"covfit {J(case['t'])} {M(case['X'])} {sel} {_ratvec(impl['raw_vals'])} {cols}"]
-    return [f"gramfit {J(case['t'])} {M(case['X'])} {rs(F(impl['noise']))} {sel} {_ratvec(impl['raw_vals'])} {cols}"]
+        return f"covfit {J(t)} {M(X)} {sel} {_ratvec(st['raw_vals'])} {cols}"
+    return f"gramfit {J(t)} {M(X)} {rs(F(st['noise']))} {sel} {_ratvec(st['raw_vals'])} {cols}"
+
+
+def model_lines(case, impl):
+    if "__crash__" in impl:
+        return []
+    return [l for l in (_stage_line(case, t, X, st) for _, t, X, st in _stages(case, impl)) if l is not None]
 
 
 def parse_model(case, outs):
-    return dict(out=outs[0])
+    return dict(outs=outs)
 
 
 def _cmp_mat(name, A, Q, rtol=RTOL):
@@ -160,14 +199,24 @@ def _cmp_mat(name, A, Q, rtol=RTOL):
 def compare(case, impl, model):
     if "__crash__" in impl:
         return [f"implementation crashed: {impl['__crash__']} {impl.get('msg')}"]
-    toks = model["out"].split(" ")
+    ds = []
+    outs = list(model["outs"])
+    for label, t, X, st in _stages(case, impl):
+        if _stage_line(case, t, X, st) is None:
+            continue
+        ds += [label + d for d in _compare_stage(case, X, st, outs.pop(0))]
+    return ds
+
+
+def _compare_stage(case, Xs, impl, out):
+    toks = out.split(" ")
     if toks[0].startswith("error:"):
         cls = toks[0][6:]
         if cls == "shape":
             return [f"model rejects the shapes of {case['kind']} case"]
         return [] if impl.get("error") == cls else [f"model: {cls}, implementation: {impl.get('error', 'no error')}"]
     if toks[0] != "ok":
-        return [f"driver answered {model['out'][:80]}"]
+        return [f"driver answered {out[:80]}"]
     if "error" in impl:
         return [f"implementation raised {impl['error']}: {impl.get('msg')}"]
     ds = []
@@ -193,7 +242,7 @@ def compare(case, impl, model):
         if i is not None:
             ds.append(f"eigenvalues (l/n) differ at {i}: {impl['vals'][:6]} vs {[float(x) for x in lam][:6]}")
         phi = np.asarray(impl["phi"], dtype=float)
-        Xf = np.array(fl(Fm(case["X"])))
+        Xf = np.array(fl(Fm(Xs)))
         Xc_abs = np.abs(Xf - Xf.mean(axis=0))
         if len(rows) != len(phi):
             ds.append(f"{len(phi)} eigenfunctions vs model {len(rows)}")
@@ -242,27 +291,56 @@ def oracle(case, impl):
     entry = "UFPCA.fit[covariance]" if case["kind"] == "cov" else "UFPCA.fit[inner-product]"
     if "__crash__" in impl:
         return [dict(clause="runs", entry=entry, msg=f"crash {impl['__crash__']}: {impl.get('msg')}")]
+    vs = []
+    for label, t, X, st in _stages(case, impl):
+        vs += _oracle_stage(case, entry, label, t, X, st)
+    # history: the refit of the same object must be what a fresh estimator reports on the same data
+    if isinstance(impl.get("B"), dict) and isinstance(impl.get("fresh"), dict):
+        b, f = impl["B"], impl["fresh"]
+        if b.get("error") != f.get("error"):
+            vs.append(dict(clause="stale_state", entry=entry, causes=[], msg=f"refit of the same estimator: {b.get('error')}, fresh estimator: {f.get('error')}"))
+        elif "error" not in b:
+            for key in ("vals", "phi", "cov"):
+                a1, a2 = np.array(b[key], dtype=float), np.array(f[key], dtype=float)
+                if a1.shape != a2.shape or not np.array_equal(a1, a2, equal_nan=True):
+                    vs.append(dict(clause="stale_state", entry=entry, causes=[],
+                                   msg=f"after a second fit of the same estimator `{ {'vals': 'eigenvalues', 'phi': 'eigenfunctions', 'cov': 'covariance'}[key] }` (shape {a1.shape}) differs from a fresh estimator's (shape {a2.shape})"))
+                    break
+    return vs
+
+
+def _oracle_stage(case, entry, label, ts, Xs, impl):
     if "error" in impl:
-        return [dict(clause="runs", entry=entry, msg=f"fit failed with {impl['error']}: {impl.get('msg')}")]
+        return [dict(clause="runs", entry=entry, msg=f"{label}fit failed with {impl['error']}: {impl.get('msg')}")]
     vs = []
 
     def bad(clause, msg, causes=()):
-        vs.append(dict(clause=clause, entry=entry, msg=msg, causes=list(causes)))
+        vs.append(dict(clause=clause, entry=entry, msg=label + msg, causes=list(causes)))
 
-    t = np.array(fl(Fv(case["t"])))
-    X = np.array(fl(Fm(case["X"])))
+    t = np.array(fl(Fv(ts)))
+    X = np.array(fl(Fm(Xs)))
     n, m = X.shape
     w = _weights(t)
     if not np.all(w > 0):
         bad("weights", "non-positive quadrature weight on a strictly increasing grid")
     Xc = X - X.mean(axis=0)
     vals = np.array(impl["vals"])
-    Phi = np.array(impl["phi"], dtype=float).reshape(len(vals), m)
     K = len(vals)
+    Phi = np.array(impl["phi"], dtype=float).reshape(K, -1)
+    if Phi.shape != (K, m):
+        bad("shape", f"{K} eigenvalues but eigenfunctions of shape {Phi.shape} on a grid of {m} points")
+        return vs
+    cov = np.array(impl["cov"], dtype=float)
+    if cov.shape != (m, m):
+        bad("mercer", f"reported covariance has shape {cov.shape} on a grid of {m} points")
+        return vs
     lam_max = max(np.abs(vals).max() if K else 0.0, 1e-300)
     if case["kind"] == "cov":
         C = Xc.T @ Xc / (n - 1)
         csc = max(np.abs(C).max(), 1e-300)
+        if np.abs(np.array(impl["data_cov"]) - C).max() > 1e-9 * csc:
+            bad("data_covariance", f"DenseFunctionalData.covariance() differs from XcᵀXc/(n−1) by {np.abs(np.array(impl['data_cov']) - C).max():.3g}")
+        lam_max = max(lam_max, float(np.linalg.eigvalsh(C * np.sqrt(np.outer(w, w))).max()))
         Gm = (Phi * w) @ Phi.T
         raw = impl.get("raw_vals")
         for a in range(K):
@@ -282,27 +360,41 @@ def oracle(case, impl):
         for k in range(K):
             r = C @ (w * Phi[k]) - vals[k] * Phi[k]
             if np.abs(r).max() > 1e-8 * csc * np.abs(w).sum() * max(np.abs(Phi[k]).max(), 1e-300):
-                bad("eigen_equation", f"pair {k}: max |∫C(t_i,·)φ − λφ(t_i)| = {np.abs(r).max():.3g} (λ = {vals[k]!r})")
+                bad("eigen_equation", f"pair {k}: max |∫C(t_i,·)φ − λφ(t_i)| = {np.abs(r).max():.3g} (λ = {vals[k]!r}, max |C| = {csc:.3g})")
                 break
-        cov = np.array(impl["cov"])
         if K == m:
             if np.abs(cov - C).max() > 1e-8 * csc:
-                bad("mercer", f"all {m} components kept but the reported covariance differs from the covariance surface by {np.abs(cov - C).max():.3g}")
+                bad("mercer", f"all {m} components kept but the reported covariance differs from the covariance surface by {np.abs(cov - C).max():.3g} (max |C| = {csc:.3g})")
         else:
             D = C - cov
             D = (D + D.T) / 2
             if np.linalg.eigvalsh(D).min() < -1e-8 * csc:
                 bad("mercer_truncated", f"C − Mercer sum of the {K} kept components is not PSD (min eigenvalue {np.linalg.eigvalsh(D).min():.3g})")
+        # the reported covariance is the Mercer sum of the reported pairs
+        mer = (Phi.T * vals) @ Phi
+        if np.all(np.isfinite(mer)) and np.abs(cov - mer).max() > 1e-9 * max(np.abs(mer).max(), csc):
+            bad("mercer_sum", f"reported covariance is not Σ λ_k φ_k φ_kᵀ of the reported pairs (deviation {np.abs(cov - mer).max():.3g})")
     else:
         sig = impl["noise"]
         V = np.array(impl["V"], dtype=float).reshape(n, K)
+        G = (Xc * w) @ Xc.T                                   # own Gram matrix of the centred curves
+        gsc = max(np.abs(G).max(), abs(sig), 1e-300)
+        if np.abs(np.array(impl["gram0"]) - G).max() > 1e-9 * gsc:
+            i, j = np.unravel_index(np.abs(np.array(impl["gram0"]) - G).argmax(), G.shape)
+            bad("gram_matrix", f"inner_product(noise_variance=0)[{i},{j}] = {impl['gram0'][i][j]!r}, Gram matrix of the centred curves: {G[i, j]!r} (n_obs = {n})")
         lprime = vals * n
-        lmax = max(np.abs(lprime).max() if K else 0.0, 1e-300)
+        # Rayleigh quotients of the returned Gram eigenvectors for G − σ²I: the eigenvalue each one belongs to
+        ray = np.array([V[:, k] @ (G @ V[:, k]) - sig * (V[:, k] @ V[:, k]) for k in range(K)])
+        lmax = max(np.abs(lprime).max() if K else 0.0, float(np.linalg.eigvalsh(G).max()) - sig, 1e-300)
+        for k in range(K):
+            if abs(lprime[k] - max(ray[k], 0.0)) > 1e-8 * max(lmax, gsc):
+                bad("gram_eigenvalue", f"reported eigenvalue {vals[k]!r}·n = {lprime[k]!r} but its Gram eigenvector has Rayleigh quotient {ray[k]!r} for G − σ²I")
+                break
         finite = [bool(np.all(np.isfinite(Phi[k]))) for k in range(K)]
         for k in range(K):
             if not finite[k]:
-                causes = [NONPOS] if lprime[k] <= 1e-10 * lmax else []
-                bad("gram_finite", f"eigenfunction {k} is not finite (Gram eigenvalue {lprime[k]!r} after clipping)", causes)
+                causes = [NONPOS] if ray[k] <= 1e-10 * lmax else []   # the eigenvalue of G − σ²I really is ≤ 0
+                bad("gram_finite", f"eigenfunction {k} is not finite (reported Gram eigenvalue {lprime[k]!r}, Rayleigh quotient of its vector {ray[k]!r})", causes)
                 break
         good = [k for k in range(K) if finite[k] and lprime[k] > 1e-10 * lmax]
         with np.errstate(all="ignore"):
@@ -352,7 +444,7 @@ def classify(case, impl):
 def extra_coverage(cases, impls, models):
     res, orth = 0.0, 0.0
     for i in impls:
-        sc = solver_contract(i) if isinstance(i, dict) else None
+        sc = solver_contract(i) if isinstance(i, dict) and "solver_in" in i else None
         if sc:
             res, orth = max(res, sc[0]), max(orth, sc[1])
     return dict(solver_contract=dict(max_relative_eigen_residual=res, max_orthonormality_defect=orth,
